@@ -189,7 +189,7 @@ def jobs(tier, seed, excluded=()):
         budget, nparts, tmo, nops, nlines = 150, 2, 100, 1, 2
     else:
         trees = ["T07", "T08", "T15", "E_choice_default", "E_choice_dep", "E_choice_member_dep"] + ["F:kconfiglib/kconfigs/Kconfig." + x for x in ("choices", "nested_choices", "choice_loading", "choice_non_first_default", "unnamed_choices", "disabled_symbols_choices", "invisible_choice_all_n")] + ["F:menuconfig/kconfigs/Kconfig.choice_default", "F:menuconfig/kconfigs/Kconfig.choice_explicit_default"]
-        budget, nparts, tmo, nops, nlines = 600, 4, 400, 2, 3
+        budget, nparts, tmo, nops, nlines = 250, 4, 200, 2, 3
     out = []
     for tid in trees:
         try:
